@@ -13,7 +13,7 @@
                    unconditionally (no textual pre-filter decides between number and symbol)
 Not decided: the option cross product as behaviour, nil/t folding, values.
 """
-from .. import roundtrip
+from .. import facts as F, roundtrip
 
 
 def run(ctx):
@@ -43,6 +43,7 @@ def run(ctx):
     c07.writeall(ctx, lexpr, db.crate("serde_lexpr"))
     null_text(ctx, lexpr)
     nil_as_false(ctx, lexpr)
+    bytes_elisp(ctx, lexpr)
     rescan(ctx, lexpr)
     r5 = ctx.rule("R-OCTAL", "octal digit table of the unibyte string printer")
     oc = lexpr.static_bytes("<print::CustomizedFormatter as print::Formatter>::write_bytes::OCTAL_CHARS")
@@ -102,6 +103,80 @@ def null_text(ctx, lexpr):
                             "the empty list is printed as %s under %s; it must always be `()` - only the special nil "
                             "value and booleans are folded into nil/t" % (sorted(texts, key=repr), desc), f.loc())
     r.floor("cases", n)
+
+
+def bytes_elisp(ctx, lexpr):
+    """Emacs Lisp unibyte strings: every byte is written as a three-digit octal escape (a raw ASCII byte would turn
+    the string into a multibyte one for the reader, or let a following digit be swallowed by the escape before
+    it), and the reader's octal decoder turns those three digits back into the byte."""
+    from .. import common, lex, sim
+    from ..sim import Adt, Bytes, Ref
+    r = ctx.rule("R-BYTES-ELISP", "with Emacs Lisp bytes syntax every byte value is written as `\\ooo` between quotes and "
+                                  "the reader's octal decoder yields the same byte (256 values)")
+    wf = lexpr.fn("<print::CustomizedFormatter as print::Formatter>::write_bytes")
+    bs = lexpr.adts.get("print::BytesSyntax")
+    opts = lexpr.adts.get("print::Options")
+    dec = lexpr.fn("parse::read::decode_elisp_octal_escape")
+    if wf is None or not bs or not opts or dec is None:
+        r.anchor_missing("CustomizedFormatter::write_bytes / print::BytesSyntax / decode_elisp_octal_escape")
+        return
+    fld = [f["name"] for f in opts["variants"][0]["fields"] if f["ty"] == "print::BytesSyntax"]
+    el = [v for v in bs["variants"] if v["name"] == "Elisp"]
+    if not fld or not el:
+        r.anchor_missing("Options field of type BytesSyntax / BytesSyntax::Elisp")
+        return
+    elv = Adt("print::BytesSyntax", el[0]["idx"], [], "Elisp")
+    fwd = common.sink_forwarders(lexpr)
+
+    def opaque(o):
+        if "options" in o.path and fld[0] in o.path:
+            return elv
+        return None
+
+    def hook(S, fn, bb, t, args, path):
+        if "std::io::Write::write_all" in F.callee_names(t):
+            return ("value", Adt("std::result::Result", 0, [sim.Tup([])]))
+        return None
+
+    n = 0
+    for b in range(256):
+        S = sim.Sim([lexpr], hooks={"opaque": opaque, "call": hook},
+                    inline=lambda a, c: c.file.endswith("print.rs") and c.path in fwd, max_visits=8, max_paths=2000)
+        texts = set()
+        try:
+            for p in S.run(wf, args={3: Ref([Bytes([b])], 0, ())}):
+                if p.end != "return":
+                    continue
+                parts = [bytes(e[6][1].b) if isinstance(e[6][1], Bytes) else None for e in p.calls("std::io::Write::write_all")]
+                texts.add(None if None in parts else b"".join(parts))
+        except sim.Limit:
+            texts = {None}
+        want = b'"\\' + (b"%03o" % b) + b'"'
+        n += 1
+        if texts != {want}:
+            r.violation(wf.path, "bytes-text:0x%02X" % b,
+                        "the byte 0x%02X of a byte vector is written as %s in Emacs Lisp syntax; it must be %s" % (
+                            b, sorted(texts, key=repr), want), wf.loc())
+            continue
+        # reader: the first digit is passed in, the other two and the closing quote are read
+        body = want[1:-1]      # \ooo
+        S2 = sim.Sim([lexpr], hooks={"call": lex.seq_hook(list(body[2:]) + [0x22])}, inline=lex.helper_inline(lexpr, {
+            "parse::read::decode_octal_val"}), max_visits=6, max_paths=2000)
+        vals = set()
+        try:
+            for p in S2.run(dec, args={2: body[1]}):
+                if p.end == "return" and isinstance(p.ret, Adt) and p.ret.variant == 0:
+                    vals.add(p.ret.fields[0] if isinstance(p.ret.fields[0], int) else None)
+                elif p.end == "return":
+                    vals.add("err")
+        except sim.Limit:
+            vals = {None}
+        if vals == {b}:
+            r.ok("0x%02X is written as %s and decoded back to 0x%02X" % (b, want.decode(), b), wf)
+        else:
+            r.violation(dec.path, "bytes-decode:0x%02X" % b,
+                        "the octal escape %s written for byte 0x%02X is decoded as %s" % (body.decode(), b, sorted(vals, key=repr)), dec.loc())
+    r.floor("bytes", n)
 
 
 def nil_as_false(ctx, lexpr):
